@@ -2321,7 +2321,8 @@ def grd12_reuse_only_complete_logs(P, R, L, rule="GRD-12"):
         """edges on which a bool derived from a reader-state query is true"""
         edges = []
         qnames = {q.name for q in queries}
-        derived = lambda os_: any(o.kind == "call" and o.name in qnames for o in os_)
+        # the guard is the reader-state query and nothing else (`is_eof || fully_consumed` is true for every torn tail)
+        derived = lambda os_: bool(os_) and all(o.kind == "call" and o.name in qnames for o in os_)
         from ..dataflow import TRANSPARENT
         T2 = TRANSPARENT | {"std::result::Result::unwrap_or", "std::result::Result::unwrap_or_default", "std::result::Result::unwrap_or_else",
                             "std::result::Result::map_err", "std::result::Result::map", "std::result::Result::ok", "std::option::Option::unwrap_or"}
@@ -3933,6 +3934,26 @@ def grd18_short_reads(P, R, L, rule="GRD-18"):
                     used = True
             R.check(rule, "%s|read-count-checked" % p, used, c.where(), "the number of bytes returned by read() is compared with the expected length (or read_exact is used)", "")
     R.floor(rule, "read_exact / checked read sites outside fs::", n + exact, 4)
+    # the same for writes: `Write::write` may accept fewer bytes than offered; the table / log writers account offsets by the
+    # length they meant to write, so they must use write_all (or loop on the count)
+    nw, wall = 0, 0
+    for p, b in sorted(P.bodies.items()):
+        if p.startswith("<fs::") or p.startswith("fs::"):
+            continue
+        for c in b.calls():
+            if b.is_cleanup(c.bb):
+                continue
+            dn = c.declared_name or ""
+            if dn == "std::io::Write::write_all":
+                wall += 1
+            if dn != "std::io::Write::write":
+                continue
+            nw += 1
+            R.analysed(b)
+            is_n = lambda os_, c=c: any(o.kind == "call" and o.site is not None and o.site.bb == c.bb for o in os_)
+            used = any(is_n(cmp_.lhs_origins()) or is_n(cmp_.rhs_origins()) for cmp_ in comparisons(b))
+            R.check(rule, "%s|write-count-checked" % p, used, c.where(), "write_all is used, or the number of bytes accepted by write() is compared with the buffer length", "")
+    R.floor(rule, "write_all / checked write sites outside fs::", nw + wall, 4)
 
 
 # ------------------------------------------------------------------------------------------- OWN-10 block cache partitions
